@@ -1,0 +1,66 @@
+//go:build verif
+
+package layers
+
+// Contracts of the ag6 sweep (property C07: serializers never panic, every obtained byte is written).
+// Blocks marked "resource bound" carry a pure no-exhaustion precondition on an element count / length
+// (never on contents): the memory model allows len(s) up to 2^56 for any element type, so an int sum of
+// per-element sizes could wrap in the model; 2^30 elements is far beyond anything that fits in memory.
+
+// ---- RADIUS: Len() is 20 plus the attribute sizes; SerializeTo writes exactly that many bytes ------------------
+// radPre(a, n): bytes taken by the first n attributes (type, length, value).
+//@ spec rec radPre(a []RADIUSAttribute, n int) int = n <= 0 ? 0 : radPre(a, n-1) + len(a[n-1].Value) + 2
+
+//@ func attributeValueLength(v []byte) (RADIUSAttributeLength, error)
+//@   props C07
+//@   ensures result1 == nil ==> result0 == len(v) && len(v) <= 255
+//@   modifies alloc
+
+// resource bound (assumed entry precondition, reported in evidence):
+//@ func (radius *RADIUS) Len() (int, error)
+//@   props C07
+//@   requires len(radius.Attributes) <= 1073741824
+//@   ensures result1 == nil ==> result0 == 20 + radPre(radius.Attributes, len(radius.Attributes))
+//@   ensures result1 == nil ==> forall k int :: 0 <= k && k <= len(radius.Attributes) ==> radPre(radius.Attributes, k) <= radPre(radius.Attributes, len(radius.Attributes))
+//@   loop 0: invariant 0 <= (rangeindex+1) && (rangeindex+1) <= len(radius.Attributes) && n == 20 + radPre(radius.Attributes, (rangeindex+1)) && radPre(radius.Attributes, (rangeindex+1)) <= 257*(rangeindex+1)
+//@   loop 0: invariant forall k int :: 0 <= k && k <= (rangeindex+1) ==> 0 <= radPre(radius.Attributes, k) && radPre(radius.Attributes, k) <= radPre(radius.Attributes, (rangeindex+1))
+
+// resource bound (assumed entry precondition, reported in evidence):
+//@ func (radius *RADIUS) SerializeTo(b gopacket.SerializeBuffer, opts gopacket.SerializeOptions) error
+//@   props C07
+//@   requires len(radius.Attributes) <= 1073741824
+//@   loop 0: invariant 0 <= (rangeindex+1) && (rangeindex+1) <= len(radius.Attributes) && pos == 20 + radPre(radius.Attributes, (rangeindex+1)) && len(data) == plen
+
+// ---- MLDv2: the reverse-order loops index inside the slice they range over -----------------------------------------
+//@ func (m *MLDv2MulticastListenerQueryMessage) serializeSourceAddressesTo(b gopacket.SerializeBuffer, opts gopacket.SerializeOptions) error
+//@   props C07
+//@   loop 0: invariant lastSAIdx == len(m.SourceAddresses) - 1 && -1 <= rangeindex && rangeindex < len(m.SourceAddresses)
+//@ func (m *MLDv2MulticastAddressRecord) serializeSourceAddressesTo(b gopacket.SerializeBuffer, opts gopacket.SerializeOptions) error
+//@   props C07
+//@   loop 0: invariant lastItemIdx == len(m.SourceAddresses) - 1 && -1 <= rangeindex && rangeindex < len(m.SourceAddresses)
+//@ func (m *MLDv2MulticastListenerReportMessage) SerializeTo(b gopacket.SerializeBuffer, opts gopacket.SerializeOptions) error
+//@   props C07
+//@   loop 0: invariant lastItemIdx == len(m.MulticastAddressRecords) - 1 && -1 <= rangeindex && rangeindex < len(m.MulticastAddressRecords)
+
+// ---- ICMPv6: the checksum helper's no-exhaustion bound on the buffer ------------------------------------------------
+// resource bound (assumed entry precondition, reported in evidence):
+//@ func (i *ICMPv6) SerializeTo(b gopacket.SerializeBuffer, opts gopacket.SerializeOptions) error
+//@   props C07
+//@   requires len(sbview(b)) <= 1099511627000
+
+// ---- SCTP parameter: the padded length stays an allocatable size -------------------------------------------------------
+// resource bound (assumed entry precondition, reported in evidence):
+//@ func (p SCTPParameter) Bytes() []byte
+//@   props C07
+//@   requires len(p.Value) <= 1073741824
+
+// ---- IPv4 (after option size computed in int and limited to 40 bytes) -----------------------------------------
+// resource bound (assumed entry precondition, reported in evidence):
+//@ func (ip *IPv4) SerializeTo(b gopacket.SerializeBuffer, opts gopacket.SerializeOptions) error
+//@   props C07
+//@   requires len(ip.Options) <= 1073741824
+//@ func (ip *IPv4) getIPv4OptionSize() int
+//@   props C07
+//@   requires len(ip.Options) <= 1073741824
+//@   ensures 0 <= result && result % 4 == 0
+//@   loop 0: invariant 0 <= rangeindex+1 && rangeindex+1 <= len(ip.Options) && 0 <= optionSize && optionSize <= 255*(rangeindex+1)
